@@ -85,6 +85,8 @@ struct side {
     struct px_fix fx;
     struct upipe *pipe;
     struct upipe *qsrc;     /* queue row: the source end */
+    struct upipe *tail;     /* chain rows: the last pipe (outputs are set on it); NULL = pipe */
+    struct upipe *mid;      /* chain rows: middle pipe of a 3-pipe chain */
     struct upipe *subs[2];
     bool with_getters;      /* C20: this side calls every getter after every step */
     struct st *st;
@@ -389,6 +391,16 @@ static int qo_get(struct side *s, char *o, size_t n)
 }
 static void qo_vs(int vi, char *o, size_t n) { snprintf(o, n, "%s", vi == 0 ? "null" : vi == 1 ? "S3" : "S4"); }
 
+/* chain rows: delay of the 2nd pipe of setattr > delay > idem */
+static int cdelay_set(struct side *s, int vi) { return upipe_delay_set_delay(s->mid, delay_vals[vi]); }
+static int cdelay_get(struct side *s, char *o, size_t n)
+{
+    int64_t v = 12345;
+    int e = upipe_delay_get_delay(s->mid, &v);
+    snprintf(o, n, "%" PRId64, v);
+    return e;
+}
+
 /* ------------------------------------------------------------------ */
 /* allocators                                                            */
 /* ------------------------------------------------------------------ */
@@ -413,6 +425,26 @@ ALLOC_VOID(rate_limit, upipe_rate_limit_mgr_alloc)
 ALLOC_VOID(ts_sync, upipe_ts_sync_mgr_alloc)
 ALLOC_VOID(ts_check, upipe_ts_check_mgr_alloc)
 ALLOC_VOID(ts_align, upipe_ts_align_mgr_alloc)
+
+/* chains of in-thread pipes: inputs and definitions enter the first, outputs are set on the last */
+static struct upipe *alloc_chain_skip_htons(struct side *s)
+{
+    struct upipe *p1 = upipe_void_alloc(upipe_skip_mgr_alloc(), px_probe(&s->fx));
+    s->tail = upipe_void_alloc(upipe_htons_mgr_alloc(), px_probe(&s->fx));
+    assert(p1 && s->tail);
+    ubase_assert(upipe_set_output(p1, s->tail));
+    return p1;
+}
+static struct upipe *alloc_chain_setattr_delay_idem(struct side *s)
+{
+    struct upipe *p1 = upipe_void_alloc(upipe_setattr_mgr_alloc(), px_probe(&s->fx));
+    s->mid = upipe_void_alloc(upipe_delay_mgr_alloc(), px_probe(&s->fx));
+    s->tail = upipe_void_alloc(upipe_idem_mgr_alloc(), px_probe(&s->fx));
+    assert(p1 && s->mid && s->tail);
+    ubase_assert(upipe_set_output(p1, s->mid));
+    ubase_assert(upipe_set_output(s->mid, s->tail));
+    return p1;
+}
 
 static int g_qlen = 1;
 static struct upipe *alloc_qsink(struct side *s)
@@ -498,6 +530,40 @@ static void exp_setattr(struct st *st, struct uref *in, int seq, struct px_srec 
     uref_free(c);
 }
 
+static void exp_skip_htons(struct st *st, struct uref *in, int seq, struct px_srec *e, bool *fw)
+{
+    exp_skip(st, in, seq, e, fw);
+    exp_htons(st, in, seq, e, fw);
+}
+
+static void exp_setattr_delay(struct st *st, struct uref *in, int seq, struct px_srec *e, bool *fw)
+{
+    (void)seq;
+    *fw = true;
+    int vi = opt_cur(st, 0), di = opt_cur(st, 1);
+    int64_t d = di < 0 ? 0 : delay_vals[di];
+    struct uref *c = uref_dup(in);
+    assert(c);
+    if (vi > 0) {
+        ubase_assert(uref_attr_set_unsigned(c, vi, UDICT_TYPE_UNSIGNED, "x.a"));
+        if (vi == 2)
+            ubase_assert(uref_attr_set_string(c, "v", UDICT_TYPE_STRING, "x.s"));
+    }
+    int type;
+    uint64_t date;
+    uref_clock_get_date_sys(c, &date, &type);
+    if (type != UREF_DATE_NONE)
+        c->date_sys = date + (uint64_t)d;
+    uref_clock_get_date_prog(c, &date, &type);
+    if (type != UREF_DATE_NONE)
+        c->date_prog = date + (uint64_t)d;
+    uref_clock_get_date_orig(c, &date, &type);
+    if (type != UREF_DATE_NONE)
+        c->date_orig = date + (uint64_t)d;
+    px_attr_dump(c, e->attrs, sizeof(e->attrs));
+    uref_free(c);
+}
+
 static void exp_match(struct st *st, struct uref *in, int seq, struct px_srec *e, bool *fw)
 {
     (void)in, (void)e;
@@ -541,6 +607,10 @@ static const struct row rows[] = {
     {.name = "probe_uref", .kind = K_ONE2ONE, .alloc = alloc_probe_uref, .expect = exp_probe, .out_def_prefix = "block."},
     {.name = "match_attr", .kind = K_ONE2ONE, .alloc = alloc_match_attr, .expect = exp_match, .out_def_prefix = "block.",
      .nopts = 1, .opt = {{"bounds", 3, match_set, NULL, NULL, NULL}}},
+    {.name = "skip>htons", .kind = K_ONE2ONE, .alloc = alloc_chain_skip_htons, .expect = exp_skip_htons, .bad_def = "pic.", .out_def_prefix = "block.",
+     .nopts = 1, .opt = {{"offset", 3, skip_set, skip_get, skip_vs, "0"}}},
+    {.name = "setattr>delay>idem", .kind = K_ONE2ONE, .alloc = alloc_chain_setattr_delay_idem, .expect = exp_setattr_delay, .out_def_prefix = "block.",
+     .nopts = 2, .opt = {{"dict", 3, setattr_set, setattr_get, dict_vs, "null"}, {"delay", 3, cdelay_set, cdelay_get, delay_vs, "0"}}},
     {.name = "null", .kind = K_SINK, .alloc = alloc_null},
     {.name = "dup", .kind = K_DUP, .alloc = alloc_dup, .expect = exp_identity, .has_subs = true, .out_def_prefix = "block."},
     {.name = "time_limit", .kind = K_HOLD, .alloc = alloc_time_limit, .expect = exp_identity, .has_flush = true, .uses_pumps = true,
@@ -709,7 +779,7 @@ static void run_getters(struct st *st, struct side *s, const char *when)
     }
     /* generic getters: output and flow definition */
     struct upipe *out = (struct upipe *)(uintptr_t)0x77;
-    int e = upipe_get_output(s->pipe, &out);
+    int e = upipe_get_output(s->tail ? s->tail : s->pipe, &out);
     if (ubase_check(e) && !g_row->flowdef_in_band) {
         struct upipe *want = st->out == 0 ? NULL : &s->fx.sinks[st->out - 1].upipe;
         if (out != want)
@@ -817,7 +887,7 @@ static int apply_side(struct st *st, struct side *s, int op, bool primary)
         upipe_input(s->pipe, u, NULL);
     } else if (op == OP_OUT_S0 || op == OP_OUT_S1 || op == OP_OUT_NULL) {
         struct upipe *o = op == OP_OUT_NULL ? NULL : &fx->sinks[op - OP_OUT_S0].upipe;
-        e = upipe_set_output(s->pipe, o);
+        e = upipe_set_output(s->tail ? s->tail : s->pipe, o);
     } else if (op == OP_TOGGLE_S0) {
         fx->sinks[0].reject = !fx->sinks[0].reject;
     } else if (op == OP_FLUSH) {
@@ -845,6 +915,10 @@ static int apply_side(struct st *st, struct side *s, int op, bool primary)
     } else if (op == OP_RELEASE) {
         upipe_release(s->pipe);
         s->pipe = NULL;
+        /* the application's handles on the inner pipes of a chain go at the same time */
+        upipe_release(s->mid);
+        upipe_release(s->tail);
+        s->mid = s->tail = NULL;
     }
     return e;
 }
@@ -865,7 +939,7 @@ static bool op_enabled(struct st *st, int op)
             return false;
         if (shapes[sh].future && strcmp(r->name, "time_limit"))
             return false;
-        if (!strcmp(r->name, "skip") && st->optmodel[0] >= 0 && (int)skip_vals[st->optmodel[0]] > shapes[sh].size)
+        if (!strncmp(r->name, "skip", 4) && st->optmodel[0] >= 0 && (int)skip_vals[st->optmodel[0]] > shapes[sh].size)
             return false; /* skipping more than the buffer holds is not defined */
         if (!strcmp(r->name, "genaux") && st->optmodel[0] == 2)
             return false;
@@ -1142,6 +1216,9 @@ static int final_check(void *vst)
         if (s->pipe) {
             upipe_release(s->pipe);
             s->pipe = NULL;
+            upipe_release(s->mid);
+            upipe_release(s->tail);
+            s->mid = s->tail = NULL;
         }
         if (s->qsrc) {
             upipe_release(s->qsrc);
